@@ -465,8 +465,12 @@ func (d *driver) runCodecCase(w emitter, k int, c *fieldCase) {
 		var z fr.Element
 		// first decode
 		var err error
+		used := false
 		dec := func(b []byte) (*fr.Element, error) {
 			var zz fr.Element
+			if used { // a receiver that holds another value from an earlier use
+				zz = frFromBig(new(big.Int).Sub(modR, big.NewInt(12345)))
+			}
 			switch c.Fn {
 			case "SetBytes":
 				zz.SetBytes(b)
@@ -502,6 +506,15 @@ func (d *driver) runCodecCase(w emitter, k int, c *fieldCase) {
 		} else {
 			e["err2"] = false
 			e["out2"] = frReg(r2)
+		}
+		// third decode, into a receiver that already holds a value
+		used = true
+		r3, err3 := dec(buf)
+		if err3 != nil {
+			e["err3"] = true
+		} else {
+			e["err3"] = false
+			e["out3"] = frReg(r3)
 		}
 		_ = bytes.Equal
 	case "Bytes", "BytesLE", "fpBytesLE", "fpBytes":
